@@ -491,7 +491,9 @@ def load_corpus():
 # implementation runs and the property's own predicate
 # ------------------------------------------------------------------------------------------------
 def strip(case):
-    return {k: case[k] for k in ("id", "numbers", "positions", "cell", "pbc", "thr", "radii", "precomputed") if k in case}
+    d = {k: case[k] for k in ("id", "numbers", "positions", "cell", "pbc", "thr", "radii", "precomputed", "twin") if k in case}
+    d.setdefault("twin", case.get("id", 0) % 4 == 1)     # process history: a twin structure (same edge lengths, orthogonal cell) first
+    return d
 
 
 def run_impl(cases):
